@@ -31,7 +31,9 @@ RULES = {
     "C01.8": "the two halves of a cursor move together: the batch read commits (chain index, offset) and (tail block id, tail offset) from pairs of variables it maintains while it "
              "parses; wherever the function assigns one half of a pair, the other half is assigned in the same basic block, or every way on from that assignment to the function's "
              "return passes an assignment of the other half. A half that is set once per planned range while the other is set per parsed entry leaves (next block, previous "
-             "block's offset) behind when a range yields no entry: the next read starts in the middle of the next block - or past its entries",
+             "block's offset) behind when a range yields no entry: the next read starts in the middle of the next block - or past its entries. And the commit closure sets each cursor "
+             "field to exactly that reached position (a captured variable or a constant), never to a combination with the value the cursor held before (`max(old, new)` keeps an "
+             "offset that belonged to the previous block after a rotation)",
     "C01.7": "a reader leaves a sealed block only at its end: every step to the next block of the chain (cur_block_idx := idx + 1 in read_next, the planner's chain index += 1 in "
              "batch_read_for_topic) is taken on an edge that establishes `offset >= block.used`, where offset is the cursor's own offset (or the planner's copy of it), in a consuming "
              "read_next that offset plus the size of the entry just read and returned, or - in the planner - the end of the range it has just planned (a planner that steps on "
@@ -564,6 +566,19 @@ def check_cursor_pairs(ctx, facts, rid="C01.8"):
             pl = st["place"]
             if pl["p"] and isinstance(pl["p"][-1], dict) and str(pl["p"][-1].get("o", "")).endswith("ColReaderInfo") and st["rv"]["k"] in ("use", "cast"):
                 stores.setdefault(pl["p"][-1].get("n"), []).append((site, source(st["rv"]["op"])))
+                # in the commit closure the cursor becomes exactly the position the batch reached: a captured variable (or a
+                # constant), not a combination with what the cursor held before (`max`, `min`, `+`)
+                fld = pl["p"][-1].get("n")
+                if clo.kind == "Closure" and fld in ("cur_block_idx", "cur_block_offset", "tail_block_id", "tail_offset"):
+                    sh = show(strip_refs(expr(clo, st["rv"]["op"])), 10)
+                    plain = st["rv"]["op"].get("k") == "const" or re.match(
+                        r"^(?:(?:unwrap_or|unwrap_or_default|unwrap|expect)\()?_1\.[A-Za-z_0-9]+(?: as \w+)?(?:\.\w+)*(?:, [^_]*)?\)?(?:\.\w+)*(?: as \w+)?$", sh) or re.match(r"^-?\d+$", sh)
+                    if plain:
+                        ctx.ok(rid, common.short_fn(clo.name), "%s := the position reached (%s)" % (fld, sh[:40]), clo.relfile, site.line)
+                    else:
+                        ctx.violate(rid, common.short_fn(clo.name), "committed-cursor-not-the-reached-position:" + fld, clo.relfile, site.line,
+                                    "the commit sets %s to %s, not to the position the batch reached: combined with the value the cursor held before (an offset inside another "
+                                    "block after a rotation), the cursor ends up behind or inside entries and later reads skip or never see them" % (fld, sh[:80]))
         for fa, fb in CURSOR_PAIRS:
             for sa, na in stores.get(fa, []):
                 # the partner store of the same arm
